@@ -387,6 +387,55 @@ def check(run):
     _split_obligation(run, ix, "trimesh.voxel.runlength:split_long_brle_lengths", binary=True)
     run.floor("run-splitting obligations", run.obligations, 4)
 
+    # ------------------------------------------------------------------ N4 no silent narrowing inside the codecs
+    run.rule("N4", "run-length codecs: an array allocated with the dtype of one operand does not receive another operand element-wise (numpy casts silently: "
+                   "values that do not fit the count type wrap); interleaving goes through np.stack / column_stack / concatenate, which promote")
+    from ..dag import Values
+    rl = ix.modules.get("trimesh.voxel.runlength")
+    if rl is None:
+        raise AnalysisError("anchor vanished: trimesh.voxel.runlength")
+    n4 = 0
+    for f_ in ix.all_functions:
+        if f_.module is not rl:
+            continue
+        stores = [st for st in ast.walk(f_.node) if isinstance(st, ast.Assign) and len(st.targets) == 1 and isinstance(st.targets[0], ast.Subscript)
+                  and isinstance(st.targets[0].value, ast.Name)]
+        if not stores:
+            continue
+        Vn = Values(ix, f_)
+        for st in stores:
+            base = Vn.local(st.targets[0].value.id, st)
+            # the array as it was allocated (peel earlier element stores)
+            alloc = base
+            for _ in range(8):
+                e_ = Vn.match("STORE(_e_prev, _e_i, _e_v)", alloc)
+                if e_ is None:
+                    break
+                alloc = ast.Name(id=e_["_e_prev"], ctx=ast.Load()) if e_["_e_prev"] in Vn.dag.defs else ast.parse(e_["_e_prev"], mode="eval").body
+            src = None
+            for fn_ in ("empty", "zeros", "ones"):
+                m_ = Vn.match(f"numpy.{fn_}(_e_shape, dtype=_e_X.dtype)", alloc)
+                src = src or (m_ and m_["_e_X"])
+            m_ = Vn.match("numpy.full(_e_shape, _e_fill, dtype=_e_X.dtype)", alloc)
+            src = src or (m_ and m_["_e_X"])
+            for fn_ in ("empty_like", "zeros_like", "ones_like"):
+                m_ = Vn.match(f"numpy.{fn_}(_e_X)", alloc)
+                src = src or (m_ and m_["_e_X"])
+            if not src:
+                continue
+            val = Vn.value(st.value, st)
+            vn = Vn.dag.node(val) if isinstance(val, ast.Name) else val
+            const = isinstance(vn, ast.Constant) or (isinstance(vn, ast.UnaryOp) and isinstance(vn.operand, ast.Constant))
+            same = const or Vn.dag._ident(val) == src or Vn.dag.contains(val, src)
+            n4 += 1
+            where_ = f"{f_.module.rel}:{st.lineno} {f_.qualname}"
+            run.instance("N4", where_, f"`{ast.unparse(st)[:60]}`: target typed like `{Vn.text(src, 1, 40)}`, stored value derives from it or is a constant: {same}", same)
+            if not same:
+                run.violation("N4", where_, f"`{ast.unparse(st)[:70]}` stores `{Vn.text(val, 2, 50)}` into an array allocated with the dtype of `{Vn.text(src, 1, 40)}`: numpy casts "
+                                            f"element stores silently, so run values that do not fit that type wrap around and the encoding is no longer lossless",
+                              key=key_of("C13-N4", f_.qualname, ast.unparse(st.targets[0])[:30]))
+    run.instance("N4", rl.rel, f"{n4} element stores into dtype-borrowing allocations examined in runlength.py", True, nontrivial=False)
+
     # ------------------------------------------------------------------ N2 binvox header
     mod = ix.modules.get("trimesh.exchange.binvox")
     if mod is None or "_binvox_header" not in mod.constants:
